@@ -296,4 +296,144 @@ theorem hsimItemsS (conv : Conv) (S s : Schema) (asGiven : Bool) (hsp : SpellOK 
         rw [handlersOfItems_append]
 end
 
+/-! ### along the top level -/
+
+theorem topHandlers_items_append (conv : Conv) (pkgs : Str → Pkg) (s : Schema) : ∀ (l : List Item) (r : List TopItem),
+    topHandlers conv pkgs s (l.map .item ++ r) = handlersOfItems conv s l ++ topHandlers conv pkgs s r
+  | [], r => by rw [List.map_nil, List.nil_append, handlersOfItems, List.nil_append]
+  | i :: l, r => by
+    rw [List.map_cons, List.cons_append, topHandlers, handlersOfItems, topHandlers_items_append conv pkgs s l r,
+      List.append_assoc]
+
+theorem topHandlers_append_kvs (conv : Conv) (pkgs : Str → Pkg) (l : List Item) (hkv : ∀ i ∈ l, ∃ k v p, i = .kv k v p) :
+    ∀ (tops : List TopItem) (s : Schema), topHandlers conv pkgs s (tops ++ l.map .item) = topHandlers conv pkgs s tops
+  | [], s => by
+    have := topHandlers_items_append conv pkgs s l []
+    rw [List.append_nil] at this
+    rw [List.nil_append, this, handlersOfItems_kvs conv s l hkv, topHandlers]
+    rfl
+  | .item i :: r, s => by
+    rw [List.cons_append, topHandlers, topHandlers, topHandlers_append_kvs conv pkgs l hkv r s]
+  | .imp p :: r, s => by
+    rw [List.cons_append, topHandlers, topHandlers]
+    cases extend s (pkgs p) with
+    | none => rfl
+    | some s' => exact topHandlers_append_kvs conv pkgs l hkv r s'
+
+/-- **the entries appended while the top-level items are run with a bag are the post-order entries of the edited items** -/
+theorem hsimTopsS (conv : Conv) (pkgs : Str → Pkg) (S : Schema) (asGiven : Bool) (hsp : SpellOK conv S asGiven) :
+    ∀ (tops : List TopItem) (s : Schema), importsOK pkgs s tops = true → lowTops tops = true → SubSchema S s →
+      ∀ (m : Matcher) (kp : List (Str × List Str)) (pend : List OptItem) (tops' : List TopItem) (pend' : List OptItem)
+        (x : Schema × Matcher), m.bag = none → PendOK pend →
+        editTops conv S asGiven (conv.key m.ty.keytype) (kp.map (·.1)) tops pend = .ok (tops', pend') →
+        evalTopsBS conv pkgs S s (withBag m (some { keypairs := kp, sectitems := pend })) tops = some x →
+        hTopsBS conv pkgs S s (withBag m (some { keypairs := kp, sectitems := pend })) tops = topHandlers conv pkgs s tops'
+  | [], s, _, _, _, m, kp, pend, tops', pend', x, _, _, hed, _ => by
+    rw [editTops] at hed
+    cases hed
+    rw [hTopsBS, topHandlers]
+  | .imp p :: r, s, hok, hl, hSs, m, kp, pend, tops', pend', x, hb, hpend, hed, hev => by
+    rw [lowTops] at hl
+    rw [editTops] at hed
+    rw [evalTopsBS] at hev
+    cases hed1 : editTops conv S asGiven (conv.key m.ty.keytype) (kp.map (·.1)) r pend with
+    | error e => rw [hed1] at hed; cases hed
+    | ok q =>
+      obtain ⟨rs, pend1⟩ := q
+      rw [hed1] at hed
+      cases hed
+      rw [hTopsBS, topHandlers]
+      cases hx : extend s (pkgs p) with
+      | none => simp [hx] at hev
+      | some s' =>
+        rw [hx] at hev
+        exact hsimTopsS conv pkgs S asGiven hsp r s' (importsOK_imp pkgs p r s s' hok hx) hl (SubSchema_extend hSs _ hx)
+          m kp pend rs pend' x hb hpend hed1 hev
+  | .item i :: r, s, hok, hl, hSs, m, kp, pend, tops', pend', x, hb, hpend, hed, hev => by
+    have hs := importsOK_head pkgs _ s hok
+    rw [importsOK] at hok
+    rw [lowTops, Bool.and_eq_true] at hl
+    have hcan1 : tyCanon s [i] = true := tyCanon_of_low s hs _ (lowItem_single _ hl.1)
+    rw [editTops] at hed
+    rw [evalTopsBS] at hev
+    cases hed1 : editItem conv S asGiven (conv.key m.ty.keytype) (kp.map (·.1)) i pend with
+    | error e => rw [hed1] at hed; cases hed
+    | ok q =>
+      obtain ⟨is1, pend1⟩ := q
+      rw [hed1] at hed
+      simp only at hed
+      cases hed2 : editTops conv S asGiven (conv.key m.ty.keytype) (kp.map (·.1)) r pend1 with
+      | error e => rw [hed2] at hed; cases hed
+      | ok q2 =>
+        obtain ⟨rs, pend2⟩ := q2
+        rw [hed2] at hed
+        cases hed
+        have hsim := simItemS conv S s asGiven hsp hSs i hcan1 m kp pend hb hpend
+        rw [hed1] at hsim
+        obtain ⟨hsim1, hsub1⟩ := hsim
+        cases hm1B : evalItemBS conv S s (withBag m (some { keypairs := kp, sectitems := pend })) i with
+        | error e => rw [hm1B] at hev; cases hev
+        | ok m1B =>
+          rw [hm1B] at hev
+          rw [hTopsBS, hm1B]
+          simp only
+          rw [hsimItemS conv S s asGiven hsp hSs hs i hl.1 m kp pend is1 pend1 m1B hb hpend hed1 hm1B]
+          rw [hsim1] at hm1B
+          obtain ⟨m1, hm1, rfl⟩ := map_ok_inv hm1B
+          have hp := evalItemsB_pres conv s is1 m m1 hm1
+          have hp1 : PendOK pend1 := fun o ho => hpend o (hsub1 o ho)
+          rw [hsimTopsS conv pkgs S asGiven hsp r s hok hl.2 hSs m1 kp pend1 rs pend' x (hp.2 hb) hp1
+            (by rw [hp.1]; exact hed2) hev]
+          rw [topHandlers_items_append]
+
+/-! ### without a bag, on the loader state -/
+
+theorem runTops_H (conv : Conv) (pkgs : Str → Pkg) :
+    ∀ (tops : List TopItem) (st : LS) (m : Matcher), importsOK pkgs st.schema tops = true → lowTops tops = true →
+      st.stack = [m] → st.conv = conv → st.pkgs = pkgs → m.bag = none →
+      ∀ (sF : Schema) (m' : Matcher), evalTops conv pkgs st.schema m tops = some (sF, m') →
+        ∃ st', runTops st tops = .ok st' ∧ st'.stack = [m'] ∧ st'.schema = sF ∧
+          st'.handlers = st.handlers ++ topHandlers conv pkgs st.schema tops
+  | [], st, m, _, _, hst, _, _, _, sF, m', hev => by
+    rw [evalTops] at hev
+    cases hev
+    rw [runTops, topHandlers]
+    exact ⟨st, rfl, hst, rfl, by rw [List.append_nil]⟩
+  | .item i :: r, st, m, hok, hl, hst, hconv, hpk, hb, sF, m', hev => by
+    have hs := importsOK_head pkgs _ st.schema hok
+    rw [importsOK] at hok
+    rw [lowTops, Bool.and_eq_true] at hl
+    have hcan1 : tyCanon st.schema [i] = true := tyCanon_of_low st.schema hs _ (lowItem_single _ hl.1)
+    rw [evalTops] at hev
+    rw [runTops, topHandlers]
+    simp only [runTop]
+    cases he : evalItem conv st.schema m i with
+    | error e => rw [he] at hev; cases hev
+    | ok m1 =>
+      rw [he] at hev
+      have hb1 : m1.bag = none := by
+        have := runItem_eval conv st.schema i st m [] hst rfl hconv hb
+        rw [he] at this
+        exact this.1
+      rw [runItem_H conv st.schema hs i st m m1 [] hcan1 hst rfl hconv hb he]
+      obtain ⟨st', h1, h2, h3, h4⟩ := runTops_H conv pkgs r (withTop st m1 [] (st.handlers ++ handlersOfItem conv st.schema i)) m1
+        hok hl.2 rfl hconv hpk hb1 sF m' hev
+      exact ⟨st', h1, h2, h3, by rw [h4]; simp only [withTop, List.append_assoc]⟩
+  | .imp p :: r, st, m, hok, hl, hst, hconv, hpk, hb, sF, m', hev => by
+    cases hpk
+    rw [lowTops] at hl
+    rw [evalTops] at hev
+    rw [runTops, topHandlers]
+    simp only [runTop]
+    have h1 := lsImport_toOption st p
+    cases he : extend st.schema (st.pkgs p) with
+    | none => rw [he] at hev; cases hev
+    | some s' =>
+      rw [he] at h1 hev
+      simp only [Option.map_some] at h1
+      rw [toOption_eq_some] at h1
+      rw [h1]
+      exact runTops_H conv st.pkgs r { st with schema := s', privateSchema := true } m
+        (importsOK_imp st.pkgs p r st.schema s' hok he) hl hst hconv rfl hb sF m' hev
+
 end ZCV.Conf
